@@ -569,7 +569,7 @@ class InterpND(object):
         if d_dvalues is not None:
             dy_ddata = np.zeros((vec_size, n_interp, n_cp), dtype=d_dvalues.dtype)
 
-            if d_dvalues.shape[0] == vec_size:
+            if self.table._name != 'bsplines':
                 # Akima precomputes derivs at all points in vec_size.
                 dy_ddata[:] = d_dvalues
             else:
